@@ -192,10 +192,11 @@ def run_case(scheme, cfg, profile, seed_, present=True, absent=False, want_shape
         todo += [(i + 1, "present", kws[i]) for i in idx]
     if absent:
         todo += [(0, cls, k) for cls, k in absent_keywords(db, rnd, scheme, cfg)]
-    runs = [(edb, db, "")]
+    runs = [(edb, db, key, "")]
     if present and two_indexes and seed_ % 4 == 0:
-        # the same scheme object and key serve a SECOND index (same keywords, other identifiers); it is searched too and
-        # the first one again afterwards: an answer must come from the index it was asked of
+        # the same scheme object serves a SECOND index (same keywords, other identifiers), under the same key or (every other
+        # time) under a second key generated by the same object; it is searched too and the first one again afterwards: an
+        # answer must come from the index it was asked of, with the token of the key it was built under
         db2 = {}
         for kw in db:
             ids, seen = [], set(db[kw])
@@ -206,17 +207,19 @@ def run_case(scheme, cfg, profile, seed_, present=True, absent=False, want_shape
                     ids.append(x)
             db2[kw] = ids
         try:
-            edb2 = sch.EDBSetup(key, db2)
-            runs = [(edb, db, ""), (edb2, db2, ":second-index"), (edb, db, ":first-index-again")]
+            key2 = sch.KeyGen() if seed_ % 8 == 4 else key
+            edb2 = sch.EDBSetup(key2, db2)
+            tag2 = ":second-key" if key2 is not key else ""
+            runs = [(edb, db, key, ""), (edb2, db2, key2, ":second-index" + tag2), (edb, db, key, ":first-index-again" + tag2)]
         except Exception as ex:
             rec["setup"] = "raised"
             rec["err"] = "second setup: " + type(ex).__name__ + ": " + str(ex)[:100]
             return rec
-    for edb_, db_, tag in runs:
+    for edb_, db_, key_, tag in runs:
       for kwi, cls, kw in todo:
         s = {"kw": kwi, "cls": cls + tag, "out": "raised", "pos": [], "err": ""}
         try:
-            tok = sch.TokenGen(key, kw)
+            tok = sch.TokenGen(key_, kw)
             res = sch.Search(edb_, tok).get_result_list()
             exp = db_[kw] if kwi else []
             got = list(res) if not isinstance(res, (set, frozenset)) else sorted(res, key=lambda x: exp.index(x) if x in exp else -1)
